@@ -524,6 +524,10 @@ class Checker:
     last_landed_exc = None
 
     def _probe(self, ev):
+        if "q_len" in ev:
+            self.stats["i1_quiescence_checks"] = self.stats.get("i1_quiescence_checks", 0) + 1
+            if (ev["q_len"] and self.state is not None) or ev.get("locked"):
+                self.rej("C04.quiescence", f"at quiescence (top-level call returned) the engine queue holds {ev['q_len']} trigger(s), processing lock held={ev.get('locked')}")
         if self.state is None:
             if ev.get("model_is_users") is False:
                 self.rej("C10.users-model", "sm.model is not the model object supplied by the user")
